@@ -199,20 +199,43 @@ def check_doc(report, name, text, label):
     # 3. every reported segment/element error message next to its segment
     blocks.append(len(body))
     line_to_block = {ln: i for i, (ln, _, _) in enumerate(segs)}
+    lines_with_errors = set(ln for (ln, _k, _c, _m) in rec)
+    # the situation of a line, for the failure key (recorded findings are specific to these situations): after a set was opened
+    # inside an unclosed set; right after a line that drew errors; otherwise
+    situation = {}
+    open_set, broken = False, False
+    for i, (ln, sid, _e) in enumerate(segs):
+        if sid == 'ST':
+            if open_set:
+                broken = True
+            open_set = True
+        elif sid == 'SE':
+            open_set = False
+        prev_ln = segs[i - 1][0] if i > 0 else None
+        situation[ln] = 'after-unclosed-set' if broken else ('prev-had-errors' if prev_ln in lines_with_errors else 'prev-clean')
+    shown_count = {}
     for (ln, kind, cde, msg) in rec:
         report.count('errors:' + kind)
         i = line_to_block.get(ln)
         if i is None:
             continue
+        sid = segs[i][1]
         chunk = body[blocks[i]:blocks[i + 1]]
         if kind == 'seg' and cde == '3':
             # "mandatory ... missing" is printed just BEFORE the segment at which it was noticed
             chunk = body[(blocks[i - 1] if i > 0 else 0):blocks[i + 1]]
         if msg not in chunk:
             where = 'elsewhere' if msg in body else 'nowhere'
-            sid = segs[i][1]
-            report.fail('C19:error-not-next-to-segment:%s:%s:%s' % (kind, cde, where),
+            report.fail('C19:error-not-next-to-segment:%s:%s:%s:%s:%s' % (kind, cde, where, sid, situation[ln]),
                         '%s error %s %r reported while processing line %d (%s) is %s in the report' % (kind, cde, msg[:80], ln, sid, where),
+                        inp, line=ln)
+        shown_count.setdefault((msg, kind, cde), []).append((ln, sid))
+    # ... and no more often than it was reported
+    for (msg, kind, cde), where_ in shown_count.items():
+        if len(msg) > 12 and body.count(msg) > len(where_):
+            ln, sid = where_[0]
+            report.fail('C19:error-shown-more-often-than-reported:%s:%s:%s' % (kind, cde, sid),
+                        '%s error %s %r was reported %d time(s) (line %d, %s) but is printed %d times' % (kind, cde, msg[:80], len(where_), ln, sid, body.count(msg)),
                         inp, line=ln)
 
 
@@ -255,6 +278,24 @@ def run(ctx, report):
         report.count('delims:' + repr(''.join(d)))
         report.count('composite-values', sum(1 for sg in segs for e in sg.split(d[1]) if d[2] in e))
         check_doc(report, name, docgen.encode(segs, d, ''), 'dense:%s:%s' % (name, ''.join(d)))
+    # crafted: errors on set / group / interchange header and trailer lines, late reader errors, a set opened inside a set
+    I0 = 'ISA*00*          *00*          *ZZ*SENDER         *ZZ*RECEIVER       *030101*1253*U*00401*000000001*0*P*:~'
+    G0 = 'GS*FA*SS*RR*20030101*1253*1*X*004010~'
+    crafted = {
+        'late-reader-error-on-SE-after-shown-segment': 'ST*997*0001~AK1*HC*1~AK9*A*X*1*1~SE*4*0001*~GE*1*1~IEA*1*000000001~',
+        'reader-error-on-SE': 'ST*997*0001~AK1*HC*1~AK9*A*1*1*1~SE*4*0001*~GE*1*1~IEA*1*000000001~',
+        'set-inside-unclosed-set': 'ST*997*0001~AK1*HC*X~ST*997*0002~AK1*HC*Y~AK9*A*Z*1*1~SE*4*0002~GE*1*1~IEA*1*000000001~',
+        'element-errors-on-ST-and-SE': 'ST*997*00000000001~AK1*HC*1~AK9*A*1*1*1~SE*4*00000000001~GE*1*1~IEA*1*000000001~',
+        'element-errors-on-ST-and-SE-after-shown-segment': 'ST*997*00000000001~AK1*HC*1~AK9*A*X*1*1~SE*4*00000000001~GE*1*1~IEA*1*000000001~',
+        'reader-error-on-GE': 'ST*997*0001~AK1*HC*1~AK9*A*1*1*1~SE*4*0001~GE*1*1*~IEA*1*000000001~',
+        'reader-error-on-IEA': 'ST*997*0001~AK1*HC*1~AK9*A*1*1*1~SE*4*0001~GE*1*1~IEA*1*000000001*~',
+        'reader-error-on-ST': 'ST*997*0001*~AK1*HC*1~AK9*A*1*1*1~SE*4*0001~GE*1*1~IEA*1*000000001~',
+        'leading-blank-on-GE': 'ST*997*0001~AK1*HC*1~AK9*A*1*1*1~SE*4*0001~ GE*1*1~IEA*1*000000001~',
+        'element-error-on-GE': 'ST*997*0001~AK1*HC*1~AK9*A*1*1*1~SE*4*0001~GE*1*1234567890~IEA*1*000000001~',
+    }
+    for what, body_ in sorted(crafted.items()):
+        report.count('crafted')
+        check_doc(report, '997.4010.xml', I0 + G0 + body_, 'crafted:' + what)
     for k in range(120 if thorough else 25):
         name, d, text = hostile_doc(rng)
         report.count('delims:' + repr(''.join(d)))
